@@ -378,7 +378,7 @@ def run(ctx):
                         elif nm in ("gt", "lt", "ge", "le"):
                             ordering = (nm, sbb)
                             gate = gate or "ordering"
-                    if contains_call(d0, lambda n: n.endswith("File::open")) is not None and d0.k == "discr":
+                    if d0.k == "discr" and strip_refs(d0.a[0]).k == "call" and strip_refs(d0.a[0]).a[0].endswith("File::open"):      # the open's own result, not a value derived from the file
                         is_err = vals == (1,) or (vals == "otherwise" and 1 not in allv and 0 in allv)
                         if is_err:
                             gate = "removed"
